@@ -74,6 +74,9 @@ type netWorld struct {
 	cli     queue.Client
 	hdr     []byte
 	cancel  context.CancelFunc
+	env     *protocol.P2PEnv
+	rt      *kbt.RoutingTable // store mode: the node's routing table
+	selfH   int64             // store mode: height the node reports for itself
 
 	mu     sync.Mutex
 	adv    map[peer.ID]int64
@@ -109,6 +112,9 @@ func (p *netPeerInfo) PeerHeight(pid peer.ID) int64 {
 	defer p.w.mu.Unlock()
 	if h, ok := p.w.adv[pid]; ok {
 		return h
+	}
+	if p.w.selfH != 0 && pid == p.w.node.ID() {
+		return p.w.selfH
 	}
 	return -1
 }
@@ -252,6 +258,7 @@ func newNetWorld(mode, lim string, qcli queue.Client, cfg *types.Chain33Config) 
 		w.startStubs()
 	}
 	w.hdr = protoHeader()
+	w.env = env
 	download.InitProtocol(env)
 	if mode == "srvlive" {
 		return w
